@@ -12,7 +12,9 @@ ReqDom == [
   host   |-> {"plain", "withport", "ip", "ipv6", "uppercase"},
   h1     |-> {"none", "custom", "custom2", "custom3", "emptyval", "longval", "cookie", "cookie2", "authorization",
               "hop-keep-alive", "hop-proxy-authorization", "hop-te", "hop-upgrade", "hop-proxy-authenticate", "hop-connection",
-              "mixedcase", "accept-encoding", "user-agent", "accept", "content-type", "range", "many", "forwarded"},
+              "mixedcase", "accept-encoding", "user-agent", "accept", "content-type", "range", "many", "forwarded",
+              \* body media types that net/http treats specially, and end-to-end names that look like hop-by-hop ones
+              "ct-form", "ct-form-charset", "ct-multipart", "ct-json", "hop-lookalike"},
   h2     |-> {"none", "custom", "custom2", "cookie", "hop-te", "hop-keep-alive", "if-none-match", "origin"},
   body   |-> {"none", "len0", "len1", "len-small", "len-4095", "len-4096", "len-4097", "len-32768", "len-32769", "len-100k",
               "chunked-small", "chunked-multi", "chunked-1byte-first", "big"} ]
@@ -23,7 +25,7 @@ RespDom == [
   h1      |-> {"none", "custom", "custom2", "setcookie2", "setcookie3", "content-type", "cache-control", "location",
                "www-authenticate", "longval", "hop-connection", "hop-keep-alive", "hop-proxy-authenticate", "hop-upgrade", "etag", "vary",
                "date", "server", "link", "via", "age", "emptyval", "mixedcase"},
-  h2      |-> {"none", "custom", "setcookie2", "hop-keep-alive", "content-encoding", "x-frame-options"},
+  h2      |-> {"none", "custom", "setcookie2", "hop-keep-alive", "content-encoding", "x-frame-options", "hop-lookalike"},
   framing |-> {"length", "chunked", "close"},
   body    |-> {"empty", "len1", "one1-then-rest", "single-small", "single-4096", "multi", "len-32769", "len-100k", "big"},
   declared   |-> {0, 1, 2, 3},
@@ -36,6 +38,7 @@ IdDom == [
   forged |-> {"none", "canonical", "lower", "mixed", "two", "canonical+lower", "asserted-first", "asserted-last", "empty-first", "asserted-only"},
   auth   |-> {"none", "basic", "bearer", "two", "lower"},
   kind   |-> {"get", "post", "shim-open"},
+  asserted |-> {"email", "empty"},       \* what the proxy asserts: an identity, or none (the stand-alone proxy never has one)
   shim   |-> BOOLEAN,
   sessions |-> BOOLEAN ]
 
